@@ -89,6 +89,8 @@ func protoTables(p *Prog, r *Report, R string) {
 }
 
 func runC15(p *Prog, r *Report) {
+	frameBuffersLocal(p, r, "C15.12/frame-buffers-local")
+	r.Floor("C15.12/frame-buffers-local", "frame_buffers.C15.12/frame-buffers-local", 2)
 	r.Describe("C15.8/header-split-order", "receivers that split the leading word(s) of the body into the header take the header first, then advance the body")
 	headerSplitOrder(p, r, "C15.8/header-split-order", func(rel string) bool { return strings.HasPrefix(rel, "protocol/") })
 	r.Floor("C15.8/header-split-order", "wire.header_splits", 2)
